@@ -18,38 +18,46 @@ META = {
                 text=("All call trees in the bound x calldata lengths {0,1(,33)} x values x join points toggled between two top-level calls x injected "
                       "failure position: the provider's firing log must equal the model's pre/post sequence (exactly once, LIFO, none for precompiles, "
                       "code-less accounts, non-CALL kinds, or when switched off); with real Aspects bound, the message each Aspect receives "
-                      "(from, to, data, value, gas, call index, ret, error) must be that call's."),
+                      "(from, to, data, value, gas, call index, ret, error) must be that call's. On thousands of generated programs StepTrace.tla derives from the "
+                      "debug-tracer callback stream where each pre/post firing must occur and compares with the provider's log (position, contract, point)."),
                 note=FRAME_NOTE),
     "C07": dict(fn=frame.check, engine="frame", design_ref="3.1, 6 C07",
                 technique="TLC exhaustive model checking of ArtelaEVM.tla + replay of every TLC behaviour on the real EVM",
                 text=("TreeWF/RestClosed/OpenChain are model-checked (including the depth-limit path with a small MaxDepth); every behaviour in the replay "
                       "bound (failures of every kind and position, creates, collisions, repeated top-level calls on one EVM) is executed and the tree "
-                      "obtained through FindCall/ParentOf/ChildrenOf/ChildrenIndices is checked against the structural statement and the model's tree."),
-                note=FRAME_NOTE + " The real 1024 depth limit is exercised by the dedicated deep-recursion scenario, not by the exhaustive bound."),
+                      "obtained through FindCall/ParentOf/ChildrenOf/ChildrenIndices is checked against the structural statement and the model's tree. "
+                      "On thousands of generated programs (13 forks) StepTrace.tla rebuilds the tree the debug-tracer callbacks imply, including attempts refused up "
+                      "front, and compares shape and cursor with the dumped tree; a self-recursion program reaches the real 1024-frame depth limit before EIP-150."),
+                note=FRAME_NOTE + " The real 1024 depth limit is exercised by the recursion program of the trace validation, not by the exhaustive bound."),
     "C08": dict(fn=frame.check, engine="frame", design_ref="3.1, 6 C08",
                 technique="TLC exhaustive model checking of ArtelaEVM.tla + replay of every TLC behaviour on the real EVM",
                 text=("TreeRecords and the action property InputsStable are model-checked; every behaviour in the bound (CALL/CREATE/CREATE2 that run, "
                       "are refused or fail later; return area placed on top of the argument area and later stores over it) is executed and each "
-                      "node's from/to/value/calldata-or-init-code/ret/err, read at the end of the transaction, must equal what was supplied at call time."),
+                      "node's from/to/value/calldata-or-init-code/ret/err, read at the end of the transaction, must equal what was supplied at call time. "
+                      "On generated programs StepTrace.tla compares every dumped node with the arguments and outcome of the frame's own enter/exit callbacks; "
+                      "every other scenario scales its wei unit by 2^64+1."),
                 note=FRAME_NOTE),
     "C10": dict(fn=frame.check, engine="frame", design_ref="3.1, 6 C10",
                 technique="TLC exhaustive model checking of ArtelaEVM.tla + replay of every TLC behaviour on the real EVM",
                 text=("JournalAttr (ghost log of journal instructions filed under storage context and innermost CALL/CREATE frame vs the tracer-cursor "
                       "shaped model) and JournalMonotone are model-checked; every behaviour mixing REGKEY/JV/SSTORE with the four call kinds, CREATE, "
-                      "re-entrancy and reverting frames is executed and StateChanges().Slot/Variable per call index must equal the model's lists."),
+                      "re-entrancy, refused calls and reverting frames is executed and StateChanges().Slot/Variable per call index must equal the model's lists; "
+                      "slot 0 is a value-type variable (VSVJNAL/VVJNAL), slot 1 a string variable (RSVJNAL/VRJNAL)."),
                 note=FRAME_NOTE),
     "C13": dict(fn=frame.check, engine="frame", design_ref="3.1, 6 C13",
                 technique="TLC exhaustive model checking of ArtelaEVM.tla + replay of every TLC behaviour on the real EVM",
                 text=("BalanceBrackets (ghost log of true balances around each transfer) and BalJournalMonotone are model-checked; every behaviour "
                       "with values 0/1/2, self-calls, calls to new accounts and precompiles, CREATE/CREATE2, reverting frames and two top-level calls "
-                      "is executed and StateChanges().Balance(addr) per call index must equal the model's collapsed before/after sequences."),
+                      "is executed and StateChanges().Balance(addr) per call index must equal the model's collapsed before/after sequences, also with key registrations "
+                      "and journal instructions between the transfers. On thousands of generated programs StepTrace.tla builds the journal from the transfers the wrapped "
+                      "Transfer function observed (real balances, position in the callback stream) and requires the dumped journal to be exactly that map."),
                 note=FRAME_NOTE),
     "C11": dict(fn=keytree.check, engine="keytree", design_ref="3.3, 6 C11", replay=".build/verifh keytree -one {path}",
                 technique="TLC exhaustive model checking of KeyTree.tla + replay of every TLC-generated API history on a real vm.Tracer",
                 text=("LookupAgree/ChangeVisibleBoth/ChildIndicesExact/RefuseIdempotent are model-checked on the implementation-shaped key tree with a ghost "
-                      "registration record; every history of <= 3 (thorough: 4, sampled 10) API operations over 1-2 accounts, 2 slots, offsets {0,1,32}, "
+                      "registration record; every history of <= 3 (thorough: 4, sampled 10) API operations over 1-2 accounts, 2 slots, offsets {0,1,32,256,2^32}, "
                       "2 type ids, 2 names, 2 values is replayed on the real tracer and every query is compared after the last operation of every prefix."),
-                note="Trusted: TLC; histories are restricted to well-formed registrations (no two names for one (slot, offset, type), no two layouts for one name). Exhaustive only within the stated constants."),
+                note="Trusted: TLC. Conflicting registrations (a second layout for a name, a second name for a path) are part of the histories: the model says which are refused and that a refusal changes nothing. Exhaustive only within the stated constants; the thorough tier adds sampled histories of length 10."),
     "C19": dict(fn=calltracer.check, engine="calltracer", design_ref="3.4, 6 C19", replay=".build/verifh calltracer -one {path}",
                 technique="TLC exhaustive model checking of CallTracer.tla + replay of every TLC-generated callback stream on the real callTracer and flatCallTracer",
                 text=("NoCrash/FiledUnderIssuer/OwnResult/FilterExact/FlatDesign are model-checked on the implementation-shaped bookkeeping (callstack, join-point "
@@ -61,66 +69,74 @@ META = {
                 text=("The packed-field and bytes/string decoders are written in TLA+ (RoundTrip, BadEncodingsRefused, FieldWidth model-checked); TLC enumerates every "
                       "(offset, width) in 0..34 plus 2^31..2^256-1 on 4 word patterns and every string length 0..100 x content pattern x slot kind x invalid "
                       "encoding; each is run on the real opcode in a real frame and the bytes read back through StateChanges().Slot must equal the model's, "
-                      "invalid operands must fail and record nothing."),
+                      "invalid operands must fail and record nothing; sequences (journal a, journal b, reassign a, journal a again) require every record to keep the content of its own moment."),
                 note="Trusted: TLC; the harness lays out storage as the Solidity compiler does (header word, data area at keccak256(pad32(slot))). Complete within the stated domain; 256-bit operands only at class boundaries."),
     "C12": dict(fn=codec.check, engine="codec", design_ref="3.5, 6 C12", replay=".build/verifh codec -one {path}",
                 technique="TLC enumeration of JournalCodec.tla vectors + paired execution (journal opcode vs operand pops) on the real interpreter",
                 text=("For each of the 8 journal opcodes x fork x static/non-static the same program is run with the instruction and with its operands popped: "
                       "stack sentinels, memory size and content, storage reads, storage writes, logs and return data must coincide and the gas difference must "
                       "be one constant non-zero fee for all opcodes and forks (choose-once, not the number 800); memory-argument and operand vectors that are "
-                      "malformed must halt the frame with all gas consumed, well-formed ones must leave memory size unchanged."),
+                      "malformed must halt the frame with all gas consumed, well-formed ones must leave memory size unchanged; every opcode at every stack height 0..8 "
+                      "(below its arity: a stack underflow like any instruction); a well-formed operand on which the instruction halts the frame is a mismatch of its own."),
                 note="Trusted: TLC; POP costs 2 gas (used to derive the fee). Reads reaching beyond existing memory may fail or read zeros; the property fixes neither."),
     "C14": dict(fn=precomp.check, engine="precompile", design_ref="3.5, 6 C14", replay=".build/verifh precompile -one {path}",
                 technique="TLC enumeration of Precompile.tla payload vectors + execution of every vector on the real precompiles with recording host callbacks",
                 text=("The ABI decode of the three Artela precompiles is written in TLA+ over payload lengths, head and length words (with 2^63..2^256-1 classes); "
                       "every vector is sent to the real precompile and the address/key/hash/(key,value) that reach the host, the returned bytes, the error and "
                       "the fee must be exactly the model's; every call kind x depth x fork checks availability from Berlin on and that a context write is "
-                      "attributed to the calling contract or refused, never crashes."),
+                      "attributed to the calling contract or refused, never crashes; sequences of two contracts reaching 0x66 in one process must not inherit a caller; "
+                      "the frame machine adds call trees with 0x66 at depth (CtxWriteAttr)."),
                 note="Trusted: TLC; the harness host callbacks. One fixed fee per precompile is required (choose-once), not the number 5000."),
     "C15": dict(fn=cancun.check, engine="cancun", design_ref="3.5, 6 C15", replay=".build/verifh mcopy -one {path}  (or .build/verifh scn -one {path} for transient-storage scenarios)",
                 technique="TLC enumeration of MCopy.tla vectors (memmove invariant model-checked) + TLC exhaustive frame-machine scenarios with TSTORE/TLOAD, all replayed on the real EVM",
                 text=("MCOPY is specified in TLA+ as overlap-safe memmove with expansion to cover source and destination and the EIP-5656 gas formula (MemMove model-checked); "
                       "every (memory size, dst, src, len) vector in the bound is executed and memory + gas compared. Transient storage is part of the frame machine's world: "
                       "TransientFresh/TransientLocal/Atomicity are model-checked and every behaviour mixing TSTORE, TLOAD, the four call kinds, reverts and two "
-                      "transactions is replayed under Cancun (and pre-Cancun, where the opcode bytes must be invalid)."),
+                      "transactions is replayed under Cancun (and pre-Cancun, where the opcode bytes must be invalid); a frame given exactly the price of a "
+                      "TSTORE/TLOAD/MCOPY program (+0..3000 gas) must complete and use exactly that price."),
                 note="Trusted: TLC; the recorder's per-step cost (EVMLogger.CaptureState) for the gas comparison. Exhaustive within offsets <= 24 (44), memory <= 96 bytes, <= 3 frames, <= 4-5 instructions."),
     "C01": dict(fn=steptrace.check, engine="steptrace", design_ref="3.2, 4.3, 6 C01", category="model_checking", replay="see the cmd field of {path}",
                 technique="trace validation with TLC: StepTrace.tla checks that each recorded Artela execution refines the go-ethereum v1.12.0 execution of the same program",
                 text=("Every generated program is executed on both implementations through each entry point; StepTrace.tla consumes the paired traces and requires the "
                       "result pair (return data, error, logs, post-state root, created address) to be equal, also with the tracer off and join points on with nothing bound, "
-                      "on all 12 rule sets and with extra EIPs; programs fold intermediate values into the returned/stored accumulator so that a wrong opcode result is observable."),
+                      "on all 12 rule sets (Constantinople with and without Petersburg) and with extra EIPs; programs fold intermediate values into the returned/stored accumulator so that a "
+                      "wrong opcode result is observable; besides random programs: the opcode x operand-class matrix, setter x observer pairs, nested call chains, CREATE sizes around the limits."),
                 note="Trusted: TLC; go-ethereum v1.12.0 from the module cache as the reference implementation; both sides run on go-ethereum's StateDB prepared identically; the recorder hashes byte strings and clamps magnitudes, nothing else. A defect shared with the reference is invisible. Sampled (seeded), not exhaustive, except the opcode x operand-class matrix."),
     "C02": dict(fn=steptrace.check, engine="steptrace", design_ref="3.2, 4.3, 6 C02, App. E", category="model_checking", replay="see the cmd field of {path}",
                 technique="trace validation with TLC: StepTrace.tla compares gas/cost/gasUsed/refund/leftover of every step and frame with the reference and checks the TLA+ gas rules",
                 text=("Per step: gas before, cost; per frame: gas given and used; per run: refund counter and leftover must equal the reference's, under a gas-limit sweep that "
                       "places the limit one unit below, on and above every intermediate gas value of the top-level frame; independently the TLA+ rules check gas continuity "
-                      "inside and across frames, out-of-gas exactly when cost > gas, constant-price tiers and the memory/copy/hash/log/exp schedule."),
+                      "inside and across frames, out-of-gas exactly when cost > gas, constant-price tiers, the memory/copy/hash/log/exp/create schedule, the SSTORE price and refund "
+                      "by fork (legacy, EIP-1283, 2200, 2929, 3529) with refunds accumulated over frames that did not fail, the message-call price (access, value, new account, "
+                      "memory, 63/64 forwarding) and the EIP-2929 access list, which the specification keeps itself and compares with the implementation's answers."),
                 note="Trusted: TLC; go-ethereum v1.12.0 from the module cache as the reference implementation; both sides run on go-ethereum's StateDB prepared identically; the recorder hashes byte strings and clamps magnitudes, nothing else. A defect shared with the reference is invisible. Sampled (seeded), not exhaustive, except the opcode x operand-class matrix."),
     "C18": dict(fn=steptrace.check, engine="steptrace", design_ref="4.3, 6 C18", category="model_checking", replay="see the cmd field of {path}",
                 technique="trace validation with TLC: the callback stream is the trace; StepTrace.tla requires it to equal the reference stream event by event, plus paired inherited tracers",
                 text=("Every CaptureStart/End/Enter/Exit/State/Fault callback with its arguments (pc, op, depth, stack top and hash, memory size and hash, return data, error, "
                       "from/to/input/value, output) must equal the reference's at the same position; struct logger, access-list, prestate (plain and diff), 4byte, call and "
-                      "flat-call tracers are attached on both sides and their outputs compared; balance of enter/exit under join-point aborts is decided by the frame machine (EvBalanced, C04/C05 scenarios)."),
+                      "flat-call tracers are attached on both sides and their outputs compared (struct logger: log entries, GetResult and WriteTrace renderings with storage snapshots); balance of enter/exit under join-point aborts is decided by the frame machine (EvBalanced, C04/C05 scenarios)."),
                 note="Trusted: TLC; go-ethereum v1.12.0 from the module cache as the reference implementation; both sides run on go-ethereum's StateDB prepared identically; the recorder hashes byte strings and clamps magnitudes, nothing else. A defect shared with the reference is invisible. Sampled (seeded), not exhaustive, except the opcode x operand-class matrix."),
     "C16": dict(fn=instances.check, engine="instances", design_ref="3.6, 6 C16", replay="see the cmd field of {path}",
                 technique="TLC model checking of Instances.tla (Determinism, Isolation) + replay of TLC interleavings on real EVM instances + repeated solo runs compared byte for byte",
                 text=("Each configuration (extra EIPs x transaction) is executed several times in fresh EVMs on equal pre-states, interleaved with the other configurations and "
                       "with concurrent instances following TLC-generated schedules; a digest of return data, gas, state root, logs, call tree and every journal query "
-                      "including the order of ChildrenIndices/Children/IndicesOfChanges must be identical across repetitions and equal to the solo digest."),
+                      "including the order of ChildrenIndices/Children/IndicesOfChanges must be identical across repetitions and equal to the solo digest; the process-wide context-writer "
+                      "object is part of the model (a reader instance must be refused whatever ran before in the process)."),
                 note="Trusted: TLC; Go's map iteration randomisation as the source of order nondeterminism (3 children per key, 5/50 repetitions). Sampled interleavings (every 20th / every 2nd)."),
     "C17": dict(fn=instances.check, engine="instances", design_ref="3.6, 6 C17", replay="see the cmd field of {path}",
                 technique="TLC model checking of Instances.tla (safety + liveness under fairness) + schedule replay on real EVM instances in gated goroutines (+ race detector, thorough)",
                 text=("SharedImmutable, Isolation, PoolHygiene, CancelOnlyOwn, CancelStops are model-checked on the construction protocol (pick / copy iff extra EIPs / enable) with "
                       "deviation switches that each yield a counterexample; CancelLive is checked under weak fairness; TLC's interleavings of construct/step/cancel for two "
                       "instances are forced on real EVMs (a probe opcode enabled only by one instance's extra EIP must stay invalid in the other), Cancel is injected at every "
-                      "position, results must equal solo results, frames must start with empty stacks, bookkeeping must be closed; free-running rounds add real parallelism."),
+                      "position, results must equal solo results, frames must start with empty stacks, bookkeeping must be closed; free-running rounds add real parallelism; "
+                      "for the shared context-writer object, attaching the caller and running the precompile are separate model steps replayed through a second gate inside EVM.Call."),
                 note="Trusted: TLC; the gating tracer. Absence of data races is observed with `go build -race` in the thorough tier on the schedules that ran, not proved."),
     "C06": dict(fn=jpgas.check, engine="jpgas", design_ref="6 C06", replay="see the cmd field of {path}",
                 technique="TLC enumeration of JPGas.tla vectors executed with real WASM Aspects + TLC trace validation of the recorded gas figures (JPGasTrace.tla)",
                 text=("For every vector the recorded gas at each Aspect's entry and exit, at the callee's first and last instruction and at the caller after the CALL must satisfy: "
                       "no Aspect leaves more than it got, Aspects of a join point chain exactly, the callee starts with what the pre join point left, the post join point "
                       "starts with what the callee left, the caller gets back exactly what the post join point left (nothing when the frame fails other than by revert), "
-                      "never more than given, and an Aspect running out of gas yields the EVM's out-of-gas error with nothing returned; the structure (which Aspects and "
+                      "never more than given and never more than a failing pre join point left, and an Aspect running out of gas yields the EVM's out-of-gas error with nothing returned; the structure (which Aspects and "
                       "whether the callee ran, error class) must be the model's."),
                 note="Trusted: TLC; aspect-runtime's gas metering; what the caller really got back is derived from the caller's own gas before/after the CALL step, not from the exit callback."),
     "C03": dict(fn=fuzz.check, engine="fuzz", design_ref="6 C03", replay="see the cmd field of {path} (codec/precompile vectors: .build/verifh codec|precompile -one {path})",
@@ -128,14 +144,16 @@ META = {
                 text=("Arbitrary byte code including the journal opcodes, the Cancun additions and calls of every kind to 0x64-0x66 runs behind recover(); the trace "
                       "specification has no action for a panic and requires the call-tree cursor to be nil and the next top-level call to be announced at depth 0 after every "
                       "run; the operand classes (0, 31/32/33, 2^31, 2^63, 2^64-1, 2^64, 2^255, 2^256-1) of every journal opcode and every payload shape of the precompiles "
-                      "are enumerated by TLC and executed as well."),
+                      "are enumerated by TLC and executed as well, together with the single-instruction operand matrix (operands around 2^64-32) and one program per memory-expanding instruction."),
                 note="Trusted: TLC. Exhaustive only over operand classes and small structures; volume beyond that is seeded generation: a crash needing a specific 256-bit constant outside the class boundaries can be missed."),
     "C20": dict(fn=fuzz.check, engine="fuzz", design_ref="6 C20", replay="see the cmd field of {path}",
                 technique="trace validation with TLC (FuzzTrace.tla work rule per instruction) on fuzzed executions + TLC-enumerated length classes for journal opcodes",
                 text=("Every executed instruction is logged with the state reads/writes it performed and the gas it was charged; FuzzTrace.tla requires (reads+writes)*20 <= cost+40; "
                       "length fields of 2^10..2^20 in storage (VRJNAL) and 1000..2^256-1 in memory arguments are enumerated from JournalCodec.tla: a flat-fee instruction must "
-                      "refuse them or stay within the bound. One known finding is recorded (VRJNAL on long stored strings)."),
-                note="Trusted: TLC; the counting StateDB wrapper. Orders of magnitude (bounded vs unbounded), not tight bounds; wall time and allocation are not measured directly."),
+                      "refuse them or stay within the bound, and the run may allocate at most WorkBound + RunAlloc bytes; memory growth per instruction must be paid for "
+                      "(3*growth <= 32*(cost - forwarded gas + 2300) + 192) over one program per memory-expanding instruction with windows of 64 KiB..4 MiB; calls to precompiles "
+                      "1-9 and 0x64-0x66 announcing lengths 0..2^256-1 may allocate at most 64 bytes per gas + 128 KiB. One known finding is recorded (VRJNAL on long stored strings)."),
+                note="Trusted: TLC; the counting StateDB wrapper; runtime.MemStats.TotalAlloc around single-threaded runs. Orders of magnitude (bounded vs unbounded), not tight bounds; wall time is not judged."),
 }
 
 CHECKS = {p: m["fn"] for p, m in META.items()}
